@@ -28,6 +28,10 @@ import (
 // generous: the machine is shared, and nothing on correct code comes near it.
 var Watchdog = 20 * time.Second
 
+// ShortTimeout is the timeout of the "timeout-short" context shape: it expires by itself
+// while the call is blocked on a silent peer.
+var ShortTimeout = 30 * time.Millisecond
+
 // PulseWait is how long an idle cancellation waits for the library's deadline
 // pulse (two Set*Deadline calls) before letting the operation proceed.
 var PulseWait = 300 * time.Millisecond
@@ -264,7 +268,24 @@ func Run(sc *Scenario, f Fault, mat *TLSMaterial) Obs {
 		}
 	}
 	feats := env.Features()
-	ctx, cancel := context.WithCancel(context.Background())
+	// the context, in the shape the plan asks for; cancel is what "the context is cancelled" does
+	var ctx context.Context
+	var cancel context.CancelFunc
+	switch f.Ctx {
+	case "timeout-parent":
+		parent, pc := context.WithCancel(context.Background())
+		c, tc := context.WithTimeout(parent, time.Hour)
+		defer tc()
+		ctx, cancel = c, pc
+	case "timeout-own":
+		ctx, cancel = context.WithTimeout(context.Background(), time.Hour)
+	case "expired":
+		ctx, cancel = context.WithDeadline(context.Background(), time.Now().Add(-time.Second))
+	case "timeout-short":
+		ctx, cancel = context.WithTimeout(context.Background(), ShortTimeout)
+	default:
+		ctx, cancel = context.WithCancel(context.Background())
+	}
 	defer cancel()
 
 	obs := Obs{CancelModel: -1, FiredModel: -1, ClearLen: sc.Clear.Len()}
@@ -306,6 +327,18 @@ func Run(sc *Scenario, f Fault, mat *TLSMaterial) Obs {
 				p.WaitDeadlineCalls(before+2, 150*time.Microsecond)
 			} else {
 				noPulse.Store(true)
+			}
+		}
+	}
+	if f.Ctx == "expired" || f.Ctx == "timeout-short" {
+		cancelled.Store(true)
+	}
+	if f.Ctx == "expired" && !sc.RWOnly {
+		p.OnOp = func(raw int) {
+			if raw == 0 && !noPulse.Load() {
+				if !p.WaitDeadlineCalls(1, PulseWait) {
+					noPulse.Store(true)
+				}
 			}
 		}
 	}
